@@ -767,7 +767,7 @@ func c9GlobalTables(c *Ctx, rule string) {
 					locked = true
 				}
 			}
-			c.Check(locked, rule, FuncKey(fn), "table-write/"+g.Name(), in.Pos(), "the package-level table %s is written after initialisation only with a lock held (lockset %s); an unsynchronised write on the logging path races with every reader", g.Name(), held[in])
+			c.Check(locked, rule, FuncKey(fn), "table-write/"+GN(g), in.Pos(), "the package-level table %s is written after initialisation only with a lock held (lockset %s); an unsynchronised write on the logging path races with every reader", GN(g), held[in])
 		})
 	})
 	c.Check(len(tables) >= 3, rule, "package-level tables", "count", token.NoPos, "%d package-level maps/slices with element writes found; %d writes outside initialisers, each under a lock", len(tables), n)
